@@ -11,6 +11,7 @@ import (
 	"gverif/core"
 
 	"golang.org/x/tools/go/cfg"
+	"golang.org/x/tools/go/types/typeutil"
 )
 
 // RunOrder checks three conventions of the concrete graph containers
@@ -313,4 +314,90 @@ func checkIterReset(res *core.Result, info *types.Info, fd *ast.FuncDecl, name s
 			return
 		}
 	}
+}
+
+// RunExpose implements GRAPHINV.expose: the ordered iterators of
+// graph/iterator keep the slice they are given, and graph.NodesOf/EdgesOf hand
+// that very slice to the caller (NodeSlice), who may sort or reverse it
+// (topo.SortStabilized does). A container type of graph/simple or graph/multi
+// therefore never builds an ordered iterator over a slice it keeps in a
+// receiver field: the argument of iterator.NewOrdered* is a local that was
+// allocated in the method, not the field itself or a local aliasing it.
+func RunExpose(conf core.Config) *core.Result {
+	res := core.NewResult("GRAPHEXPOSE")
+	res.Rules = append(res.Rules, "GRAPHINV.expose: no method of graph/simple or graph/multi passes a slice field of its receiver (or a local assigned from one without copying) to an iterator.NewOrdered* constructor")
+	res.Configs = append(res.Configs, conf.String())
+	pkgs, err := core.Load(conf, "./graph/simple", "./graph/multi")
+	if err != nil {
+		res.Brokenf("%v", err)
+		return res
+	}
+	for _, pkg := range pkgs {
+		info := pkg.TypesInfo
+		for _, file := range pkg.Syntax {
+			for _, d := range file.Decls {
+				fd, ok := d.(*ast.FuncDecl)
+				if !ok || fd.Body == nil || fd.Recv == nil || len(fd.Recv.List) != 1 || len(fd.Recv.List[0].Names) != 1 {
+					continue
+				}
+				recv := info.Defs[fd.Recv.List[0].Names[0]]
+				name := core.FuncName(pkg, fd)
+				// fieldRooted: g.f, g.f[i:j], (and locals assigned from those)
+				aliases := map[types.Object]bool{}
+				var fieldRooted func(e ast.Expr) bool
+				fieldRooted = func(e ast.Expr) bool {
+					switch x := ast.Unparen(e).(type) {
+					case *ast.SliceExpr:
+						return fieldRooted(x.X)
+					case *ast.SelectorExpr:
+						if id, ok := ast.Unparen(x.X).(*ast.Ident); ok && core.ObjOf(info, id) == recv {
+							if tv, ok := info.Types[x]; ok {
+								_, isSlice := tv.Type.Underlying().(*types.Slice)
+								return isSlice
+							}
+						}
+					case *ast.Ident:
+						return aliases[core.ObjOf(info, x)]
+					}
+					return false
+				}
+				for changed := true; changed; {
+					changed = false
+					ast.Inspect(fd.Body, func(n ast.Node) bool {
+						as, ok := n.(*ast.AssignStmt)
+						if !ok || len(as.Lhs) != len(as.Rhs) {
+							return true
+						}
+						for i, l := range as.Lhs {
+							if id, ok := l.(*ast.Ident); ok && fieldRooted(as.Rhs[i]) {
+								if o := core.ObjOf(info, id); o != nil && !aliases[o] {
+									aliases[o] = true
+									changed = true
+								}
+							}
+						}
+						return true
+					})
+				}
+				ast.Inspect(fd.Body, func(n ast.Node) bool {
+					c, ok := n.(*ast.CallExpr)
+					if !ok || len(c.Args) == 0 {
+						return true
+					}
+					fn, _ := typeutil.Callee(info, c).(*types.Func)
+					if fn == nil || fn.Pkg() == nil || fn.Pkg().Path() != core.ModPath+"/graph/iterator" || !strings.HasPrefix(fn.Name(), "NewOrdered") {
+						return true
+					}
+					res.Obligations++
+					res.Count("ordered_iterator_constructions", 1)
+					if fieldRooted(c.Args[0]) {
+						res.Add(core.Finding{Rule: "GRAPHINV.expose", Key: fmt.Sprintf("GRAPHINV.expose|%s|%s", name, fn.Name()), Pos: core.Pos(c.Pos()), Func: name,
+							Msg: fmt.Sprintf("%s builds %s over %s, a slice the receiver keeps: graph.NodesOf/EdgesOf return that slice to the caller, who may reorder it (topo.SortStabilized reverses it) and so corrupt the graph's ID-indexed storage", name, fn.Name(), types.ExprString(c.Args[0]))})
+					}
+					return true
+				})
+			}
+		}
+	}
+	return res
 }
